@@ -240,7 +240,8 @@ class Property(object):
         if name.startswith(self.id + "-") and name.endswith(".json"):
           with open(os.path.join(d, name)) as fh:
             doc = json.load(fh)
-          out.append((name, doc["workload"], doc["S"]))
+          out.append((name, doc["workload"], doc["S"],
+                      int(doc.get("seeded_schedules", 0))))
     return out
 
 
@@ -650,19 +651,28 @@ def run_corpus(prop, stats, known, base_seed, keep_digest=False):
       n += 1
       if stats.violations:
         return
-  for ri, (name, workload, s_list) in enumerate(prop.corpus_replays()):
-    try:
-      res = run_explicit(prop, workload, s_list=list(s_list))
-    except HarnessError:
-      raise
-    except BaseException:
-      raise HarnessError("corpus replay %s crashed in the harness:\n%s"
-                         % (name, traceback.format_exc()))
-    _account(stats, prop, known, workload, res, ["corpus-replay", ri, 0],
-             keep_digest)
-    stats.counters["corpus_replays"] += 1
-    if stats.violations:
-      return
+  for ri, (name, workload, s_list, nseeded) in \
+      enumerate(prop.corpus_replays()):
+    # the recorded schedule (exact only as long as the code under test has
+    # the same pre-emption points), then fresh seeded schedules of the same
+    # directed workload (robust against such drift)
+    tries = [(list(s_list), None)]
+    for k in range(nseeded):
+      tries.append((None, derive_seed(base_seed, prop.id + "corpus-replay",
+                                      ri, k)))
+    for ti, (sl, sseed) in enumerate(tries):
+      try:
+        res = run_explicit(prop, workload, s_list=sl, s_seed=sseed)
+      except HarnessError:
+        raise
+      except BaseException:
+        raise HarnessError("corpus replay %s crashed in the harness:\n%s"
+                           % (name, traceback.format_exc()))
+      _account(stats, prop, known, workload, res, ["corpus-replay", ri, ti],
+               keep_digest)
+      stats.counters["corpus_replays"] += 1
+      if stats.violations:
+        return
 
 
 def run_check(prop_name, tier, base_seed, workers=None, max_runs=None,
